@@ -133,6 +133,11 @@ def gen_script(rng, nsteps):
         if len(cands) >= 1:
             steps.append(["mul", rng.choice(cands), rng.choice(cands)])
             lin.append(False)
+        else:
+            # only linear chains so far: a product of two of them is a node
+            cands = [i for i in range(len(steps)) if steps[i][0] == "leaf"]
+            steps.append(["mul", rng.choice(cands), rng.choice(cands)])
+            lin.append(False)
     return steps
 
 
@@ -327,6 +332,8 @@ def allclose(a, b):
 def oracle(case):
     """the property on the real code only: same domain and target, equal value and Jacobian at several inputs"""
     E = env()
+    if case["steps"][-1][0] not in ("add", "mul"):
+        return None     # not a sum/product tree (the optimiser works on trees with at least one node)
     r = run_real(case)
     if "error" in r:
         if r["error"].startswith("build:"):
